@@ -209,8 +209,9 @@ class Tracer:
         if isinstance(s, ast.Assign):
             outs = []
             for q, v in self._expr(s.value, p, fi, depth):
-                for t in s.targets:
-                    self._bind(t, v, q, fi, s)
+                if q.status != 'raise':     # an inlined callee raised: nothing is bound, the exception propagates
+                    for t in s.targets:
+                        self._bind(t, v, q, fi, s)
                 outs.append(q)
             return outs
         if isinstance(s, ast.AnnAssign):
@@ -218,19 +219,24 @@ class Tracer:
                 return [p]
             outs = []
             for q, v in self._expr(s.value, p, fi, depth):
-                self._bind(s.target, v, q, fi, s)
+                if q.status != 'raise':
+                    self._bind(s.target, v, q, fi, s)
                 outs.append(q)
             return outs
         if isinstance(s, ast.AugAssign):
             outs = []
             cur = ast.BinOp(left=clone(s.target), op=s.op, right=s.value)
             for q, v in self._expr(cur, p, fi, depth):
-                self._bind(s.target, v, q, fi, s)
+                if q.status != 'raise':
+                    self._bind(s.target, v, q, fi, s)
                 outs.append(q)
             return outs
         if isinstance(s, ast.Return):
             outs = []
             for q, v in (self._expr(s.value, p, fi, depth) if s.value is not None else [(p, const_val(None))]):
+                if q.status == 'raise':
+                    outs.append(q)
+                    continue
                 q.status = 'return'
                 q.ret = v
                 q.events.append(Event('return', value=v, node=s, fn=fi.qualname, facts=tuple(q.facts), depth=depth))
@@ -824,6 +830,8 @@ class Tracer:
         callee_ast = fv.ast if fv is not None else clone(f)
         callee = norm(callee_ast)
         attr = f.attr if isinstance(f, ast.Attribute) else (f.id if isinstance(f, ast.Name) else None)
+        if isinstance(f, ast.Name) and fv is not None and isinstance(callee_ast, ast.Attribute):
+            attr = callee_ast.attr      # called through a local that holds `X.method`: the event is about the method
         target = self._resolve(e, fi, fv)
         name = attr
         inline = False
